@@ -67,7 +67,7 @@ Fds  == 0 .. (NFd - 1)
 Objs == 1 .. MaxObj
 
 NoObj == [kind |-> "", st |-> "none", fd |-> -1, fd2 |-> -1, closed |-> FALSE, ncl |-> 0,
-          evr |-> FALSE, evw |-> FALSE, refs |-> FALSE, nconn |-> "none", coll |-> FALSE, gen |-> 0]
+          evr |-> FALSE, evw |-> FALSE, refs |-> FALSE, nconn |-> "none", coll |-> FALSE, gen |-> 0, lclosed |-> FALSE]
 
 \* ---------------------------------------------------------------------------
 \* constructors: step tables
@@ -325,6 +325,24 @@ NetClose(o) ==
   /\ hist' = Append(hist, Cmd("NetClose", o, ob.kind, "none", "", 1, 0, Cardinality(lost), 0))
   /\ UNCHANGED <<reg, nmade, nplug>>
 
+\* websocket: stream.NextLayer().Close(), i.e. the Close of the AsyncAdapter the
+\* stream built around its net.Conn (before or after CloseNextLayer)
+LayerClose(o) ==
+  LET ob == objs[o]
+      t1 == IF ob.lclosed THEN tab
+            ELSE IF BUG_AdapterRawClose THEN CloseNum(tab, ob.fd)
+            ELSE IF ob.nconn = "open" THEN CloseNum(tab, ob.fd) ELSE tab
+      lost == Census(tab) \ Census(t1)
+  IN
+  /\ ob.st = "live" /\ ob.kind \in {"ws", "wsa"} /\ ob.gen = 1 /\ ob.ncl < MaxClose /\ ob.refs
+  /\ tab' = t1
+  /\ reg' = IF ob.lclosed THEN reg ELSE Dereg(reg, ob.fd)
+  /\ objs' = [objs EXCEPT ![o].lclosed = TRUE, ![o].ncl = @ + 1,
+                          ![o].nconn = IF BUG_AdapterRawClose \/ ob.lclosed THEN @ ELSE "closed"]
+  /\ mon' = M!Step(mon, Ev("Close", o, ob.kind, "none", 1, 0, "", 0, Census(tab), Census(t1), {}, {}))
+  /\ hist' = Append(hist, Cmd("LayerClose", o, ob.kind, "none", "", 1, 0, Cardinality(lost), 0))
+  /\ UNCHANGED <<nmade, nplug>>
+
 \* ---------------------------------------------------------------------------
 \* operations in flight, references, collection
 \* ---------------------------------------------------------------------------
@@ -394,7 +412,7 @@ Step ==
              \* (no exhaustion here: reset() frees a number first, so RLIMIT_NOFILE cannot make the dial fail)
              \E f \in ({"none"} \cup (IF WithFail THEN FailPoints(objs[o].kind) \ EmFails(objs[o].kind) ELSE {})) :
                \E a \in Args(f) : Rehandshake(o, f, a)
-     \/ \E o \in Objs : DoClose(o) \/ TimerCancel(o) \/ NetClose(o)
+     \/ \E o \in Objs : DoClose(o) \/ TimerCancel(o) \/ NetClose(o) \/ LayerClose(o)
      \/ \E o \in Objs : \E d \in {"r", "w"} : Park(o, d) \/ Fire(o, d) \/ Drop(o, d)
 
 \* a state in which the monitor has rejected is terminal; the rejected script
